@@ -136,6 +136,16 @@ INT_BITS = {'u8': 8, 'i8': 8, 'u16': 16, 'i16': 16, 'u32': 32, 'i32': 32, 'u64':
             'usize': 64, 'isize': 64, 'u128': 128, 'i128': 128, 'char': 32}
 
 
+def strip_generics(s):
+    """drop every `<...>` group (nesting-aware; `->` and `=>` are not brackets)"""
+    out, depth = [], 0
+    for i, c in enumerate(s):
+        if c == '<': depth += 1
+        elif c == '>' and i > 0 and s[i - 1] not in '-=': depth -= 1
+        elif depth == 0: out.append(c)
+    return ''.join(out).replace('::::', '::')
+
+
 def is_sym(v):
     return isinstance(v, z3.ExprRef)
 
@@ -201,7 +211,9 @@ class Executor:
     def ok(self, v): return self.mk_enum('Result', 'Ok', [v])
     def err(self, v): return self.mk_enum('Result', 'Err', [v])
     def mk_struct(self, ty, **kw):
-        names = self.L.structs[ty]
+        defs = self.L.struct_defs.get(ty) or [self.L.structs[ty]]
+        fit = [d for d in defs if set(d) == set(kw)]
+        names = fit[0] if len(fit) == 1 else self.L.structs[ty]
         missing = [n for n in names if n not in kw]
         extra = [k for k in kw if k not in names]
         if missing or extra:
@@ -209,14 +221,21 @@ class Executor:
         return Adt(ty, 0, {None: [Cell(kw[n]) for n in names]})
     def mk_struct_partial(self, ty, **kw):
         """struct with only the named fields populated; any other field read is an opaque `unset` value"""
-        names = self.L.structs[ty]
+        defs = self.L.struct_defs.get(ty) or [self.L.structs[ty]]
+        fit = [d for d in defs if all(k in d for k in kw)]
+        if len(fit) != 1: raise Unsupported(f'struct {ty}: {len(fit)} definitions have fields {list(kw)}')
+        names = fit[0]
         extra = [k for k in kw if k not in names]
         if extra: raise Unsupported(f'struct {ty}: layout changed (unknown {extra})')
         return Adt(ty, 0, {None: [Cell(kw[n] if n in kw else Opaque('unset', f'{ty}.{n}')) for n in names]})
 
     def field(self, adt, name):
         adt = dv(adt)
-        return adt.fields[None][self.L.structs[adt.ty].index(name)]
+        defs = self.L.struct_defs.get(adt.ty) or [self.L.structs[adt.ty]]
+        fit = [d for d in defs if name in d and len(d) == len(adt.fields[None])] or [d for d in defs if name in d]
+        if len(fit) != 1 and len({d.index(name) for d in fit}) != 1:
+            raise Unsupported(f'field {name} of {adt.ty}: {len(fit)} struct definitions fit')
+        return adt.fields[None][fit[0].index(name)]
     def variant_name(self, adt):
         return self.L.enums[adt.ty][adt.discr]
     def payload(self, adt, i=0):
@@ -412,7 +431,7 @@ class Executor:
                 return base
             if isinstance(v, PVec) and p[2] == 0:   # Vec<T>.buf etc. never needed; treat as transparent
                 return base
-            raise Unsupported(f'field {p[2]} of {v!r}')
+            raise Unsupported(f'field {p[2]} of {v!r} in {self.cur_fn[-1] if self.cur_fn else None}')
         raise Unsupported(str(p))
 
     # ---- types of operands (for integer widths / signedness)
@@ -938,8 +957,8 @@ class Executor:
                     if depth == 0: break
             j -= 1
         pre, argstr = head[:j], head[j + 1:]
-        k = pre.find(' = ')
-        if k >= 0 and re.match(r'^[\w\s().*:&<>\[\]#\',-]+$', pre[:k]) and not pre.startswith('<'):
+        k = Executor.assign_split(pre)
+        if k >= 0 and re.match(r'^[\w\s().*:&<>\[\]#\',=+-]+$', pre[:k]) and not pre.startswith('<'):
             dest, callee = pre[:k], pre[k + 3:]
         else:
             dest, callee = None, pre
@@ -960,7 +979,8 @@ class Executor:
             gm = re.search(r'(?:^<|From<|Into<)([A-Z]\w?)(?= as |>>)', callee)
             if gm and gm.group(1) not in getattr(self, 'type_env', {}):
                 a0 = dv(args[0])
-                dyn = a0.ty if isinstance(a0, Adt) and a0.ty not in ('closure', 'Coroutine', 'Pin') else \
+                dyn = 'String' if isinstance(a0, (str, SymStr, SB)) or getattr(a0, 'rust_type', None) == 'String' else \
+                    a0.ty if isinstance(a0, Adt) and a0.ty not in ('closure', 'Coroutine', 'Pin') else \
                     (a0.payload.split('::')[-1] if isinstance(a0, Opaque) and a0.tag == 'const' and isinstance(a0.payload, str) else None)
                 if dyn:
                     callee2 = re.sub(r'\b' + gm.group(1) + r'\b', dyn, callee)
@@ -975,6 +995,11 @@ class Executor:
                 self.models_used.add(pat)
                 return fn(self, args, callee)
         if amb is not None: raise amb
+        if user is None:
+            # a tuple-variant constructor used as a function (`.map(Some)`)
+            cparts = [x for x in strip_generics(c).split('::') if x]
+            if len(cparts) >= 2 and cparts[-2] in self.L.enums and cparts[-1] in self.L.enums[cparts[-2]]:
+                return self.mk_enum(cparts[-2], cparts[-1], list(args))
         if user is not None:
             m = re.match(r'^<(&+)', callee)
             if m:
